@@ -74,19 +74,27 @@ package runner
 //@   effect no lock-held at return
 //@   effect no may-block while lock-held
 //@   requires ctxOK(c)
+//@   ghostlocal hookFailed bool
+//@   ensures #C14.every-after-command-attempted result == nil ==> calls(runServiceCommand) == len(c.after) && !hookFailed
+//@   ensures #C14.first-failing-after-command-reported hookFailed ==> result != nil
+//@   callsite runServiceCommand
+//@     ghost hookFailed = hookFailed || result != nil
 //@   modifies runN, runJob, runErr, bufLen, interp.Runner.Dir, interp.Runner.Env
 //@   ensures #log-prefix runN >= old(runN) && (forall i int :: i < old(runN) ==> runJob[i] == old(runJob[i]) && runErr[i] == old(runErr[i]))
 //@   loop 1 "range c.after"
 //@     invariant #same c == c0 && ctxOK(c)
+//@     invariant #C14.attempted-so-far calls(runServiceCommand) == rangeindex + 1 && !hookFailed
 //@     invariant #log-prefix runN >= old(runN) && (forall i int :: i < old(runN) ==> runJob[i] == old(runJob[i]) && runErr[i] == old(runErr[i]))
 //@ func (*ExecutionContext).Down$1
 //@   effect no lock-held at return
 //@   effect no may-block while lock-held
+//@   ensures #C14.every-down-command-attempted calls(runServiceCommand) == len(c.down)
 //@   requires ctxOK(c)
 //@   modifies runN, runJob, runErr, bufLen, interp.Runner.Dir, interp.Runner.Env
 //@   ensures #log-prefix runN >= old(runN) && (forall i int :: i < old(runN) ==> runJob[i] == old(runJob[i]) && runErr[i] == old(runErr[i]))
 //@   loop 1 "range c.down"
 //@     invariant #same c == c0 && ctxOK(c)
+//@     invariant #C14.attempted-so-far calls(runServiceCommand) == rangeindex + 1
 //@     invariant #log-prefix runN >= old(runN) && (forall i int :: i < old(runN) ==> runJob[i] == old(runJob[i]) && runErr[i] == old(runErr[i]))
 //@ func (*ExecutionContext).Down
 //@   effect no lock-held at return
@@ -123,16 +131,24 @@ package runner
 //@   modifies compiled, executor.Job.Next, ccN, ccV, ccC, ccCmd, ccJob, cdom, cval
 //@   ensures result#1 == nil ==> (result != nil ==> compiled[result]) && compiledClosed()
 //@   ensures !exitOK(result#1)
+// C10: a variable value or a command that cannot be rendered (an undefined variable) fails the compilation — the
+// task then fails before any of its commands executes
+//@   ghostlocal renderFailed bool
+//@   callsite RenderString
+//@     ghost renderFailed = renderFailed || result#1 != nil
+//@   ensures #C10.render-failure-fails-the-compilation renderFailed ==> result#1 != nil
 //@   ensures #C06.empty result#1 == nil && (len(t.Commands) == 0 || (t.Variations != nil && len(t.Variations) == 0)) ==> ccN == old(ccN) && result == nil
 //@   ensures #C06.first result#1 == nil && ccN > old(ccN) ==> ccV[old(ccN)] == 0 && ccC[old(ccN)] == 0 && result == ccJob[old(ccN)]
 //@   ensures #C06.successor result#1 == nil ==> (forall i int :: old(ccN) <= i && i + 1 < ccN ==> ccJob[i].Next == ccJob[i+1] && (ccC[i] + 1 < len(t.Commands) ==> ccV[i+1] == ccV[i] && ccC[i+1] == ccC[i] + 1) && (ccC[i] + 1 >= len(t.Commands) ==> ccV[i+1] == ccV[i] + 1 && ccC[i+1] == 0))
 //@   ensures #C06.last result#1 == nil && ccN > old(ccN) ==> ccJob[ccN-1].Next == nil && ccC[ccN-1] == len(t.Commands) - 1 && ccV[ccN-1] == (t.Variations == nil ? 0 : len(t.Variations) - 1)
 //@   ensures #C06.commands result#1 == nil ==> (forall i int :: old(ccN) <= i && i < ccN ==> 0 <= ccC[i] && ccC[i] < len(t.Commands) && ccCmd[i] == t.Commands[ccC[i]])
 //@   loop 1 "range vars.Map()"
+//@     invariant #C10.rendered-so-far !renderFailed
 //@     invariant #same tc == tc0 && t == t0 && executionContext == executionContext0 && vars != nil && tc != nil && tc.variables != nil && t != nil && env != nil && executionContext != nil && compiledClosed()
 //@     invariant #nothing-yet ccN == old(ccN) && job == nil && prev == nil
 //@     invariant #C09.env-param-unchanged env == env0
 //@   loop 2 "range t.GetVariations()"
+//@     invariant #C10.rendered-so-far !renderFailed
 //@     invariant #same tc == tc0 && t == t0 && executionContext == executionContext0 && vars != nil && tc != nil && tc.variables != nil && t != nil && env != nil && executionContext != nil && compiledClosed()
 //@     invariant #count ccN >= old(ccN)
 //@     invariant #C09.env-param-unchanged env == env0
@@ -144,6 +160,7 @@ package runner
 //@     invariant #no-commands len(t.Commands) == 0 ==> ccN == old(ccN)
 //@     invariant #started ccN == old(ccN) ==> rangeindex == -1 || len(t.Commands) == 0
 //@   loop 3 "range t.Commands"
+//@     invariant #C10.rendered-so-far !renderFailed
 //@     invariant #same tc == tc0 && t == t0 && executionContext == executionContext0 && vars != nil && tc != nil && tc.variables != nil && t != nil && env != nil && executionContext != nil && compiledClosed()
 //@     invariant #count ccN >= old(ccN) && rangeindex#1 >= 0
 //@     invariant #C09.env-param-unchanged env == env0
@@ -162,15 +179,27 @@ package runner
 //@     ghost ccCmd[ccN] = command
 //@     ghost ccJob[ccN] = result
 //@     ghost ccN = ccN + 1
+//@     ghost renderFailed = renderFailed || result#1 != nil
 
 //@ func (*TaskRunner).checkTaskCondition
 //@   requires runnerOK(r) && t != nil && executionContext != nil && compiledClosed()
 //@   callsite CompileCommand
 //@     requires #C13.condition-carries-task-timeout arg3 == t.Timeout && arg2 == t.Dir
+//@     ghost condSetupFailed = condSetupFailed || result#1 != nil
 //@     requires #C11.hook-output-is-not-captured arg5 == r.Stdout && arg6 == r.Stderr // hooks and the condition write to the runner's own streams, never into the task's captured output
 //@   modifies runN, runJob, runErr, bufLen, interp.Runner.Dir, interp.Runner.Env, compiled, cdom, cval, executor.Job.Dir, executor.DefaultExecutor.*
 //@   ensures #log-prefix runN >= old(runN) && runN <= old(runN) + 1 && (forall i int :: i < old(runN) ==> runJob[i] == old(runJob[i]) && runErr[i] == old(runErr[i]))
 //@   ensures #C06.no-condition t.Condition == "" ==> result && result#1 == nil && runN == old(runN)
+// C06 / C10: the condition is met only when its command ran and succeeded; the task is skipped (false, nil) only
+// when the command ran and exited non-zero; a condition that cannot be compiled (an undefined variable) or run is
+// an error of the task, never a silent skip
+//@   ghostlocal condSetupFailed bool
+//@   callsite NewDefaultExecutor
+//@     ghost condSetupFailed = condSetupFailed || result#1 != nil
+//@   ensures #C06.condition-that-cannot-be-set-up-is-an-error condSetupFailed ==> result#1 != nil
+//@   ensures #C06.met-means-the-command-succeeded result && t.Condition != "" ==> runN == old(runN) + 1 && runErr[old(runN)] == nil
+//@   ensures #C06.skip-means-the-command-exited-non-zero !result && result#1 == nil ==> runN == old(runN) + 1 && exitOK(runErr[old(runN)])
+//@   ensures #C06.error-means-not-met result#1 != nil ==> !result
 //@   ensures compiledClosed()
 
 //@ func (*TaskRunner).before
@@ -236,6 +265,7 @@ package runner
 //@ ghost gOutErr error
 
 //@ func (*TaskRunner).Run
+//@   effect unlock-only-held
 //@   ghostlocal gCaptured io.Writer
 //@   ghostlocal gCtxOK bool
 //@   requires runnerOK(r) && taskOK(t) && compiledClosed()
@@ -323,11 +353,14 @@ package runner
 //@   modifies runN, runJob, runErr, bufLen, interp.Runner.Dir, interp.Runner.Env
 //@   ensures #log-prefix runN >= old(runN) && runN <= old(runN) + 1 && (forall i int :: i < old(runN) ==> runJob[i] == old(runJob[i]) && runErr[i] == old(runErr[i]))
 //@   ensures #C14.service-result runN == old(runN) + 1 ==> runErr[old(runN)] == err
+//@   ensures #C14.ran-or-failed runN == old(runN) + 1 || err != nil
 
 // the body handed to onceUp.Do: runs every `up` command; a failure of any of them is remembered
 //@ func (*ExecutionContext).Up$1
+//@   effect unlock-only-held
 //@   effect no lock-held at return
 //@   effect no may-block while lock-held
+//@   ensures #C14.every-up-command-attempted calls(runServiceCommand) == len(c.up)
 //@   ghostlocal anyFailed bool
 //@   requires ctxOK(c)
 //@   modifies runN, runJob, runErr, bufLen, interp.Runner.Dir, interp.Runner.Env, c.startupError
@@ -336,6 +369,7 @@ package runner
 //@   ensures #C14.up-success-keeps-nil !anyFailed ==> c.startupError == old(c.startupError)
 //@   loop 1 "range c.up"
 //@     invariant #same c == c0 && ctxOK(c)
+//@     invariant #C14.attempted-so-far calls(runServiceCommand) == rangeindex + 1
 //@     invariant #log-prefix runN >= old(runN) && (forall i int :: i < old(runN) ==> runJob[i] == old(runJob[i]) && runErr[i] == old(runErr[i]))
 //@     invariant #C14.up-failure-remembered anyFailed ==> c.startupError != nil
 //@     invariant #C14.up-success-keeps-nil !anyFailed ==> c.startupError == old(c.startupError)
@@ -355,10 +389,16 @@ package runner
 //@   effect no lock-held at return
 //@   effect no may-block while lock-held
 //@   requires ctxOK(c)
+//@   ghostlocal hookFailed bool
+//@   ensures #C14.every-before-command-attempted result == nil ==> calls(runServiceCommand) == len(c.before) && !hookFailed
+//@   ensures #C14.first-failing-before-command-reported hookFailed ==> result != nil
+//@   callsite runServiceCommand
+//@     ghost hookFailed = hookFailed || result != nil
 //@   modifies runN, runJob, runErr, bufLen, interp.Runner.Dir, interp.Runner.Env
 //@   ensures #log-prefix runN >= old(runN) && (forall i int :: i < old(runN) ==> runJob[i] == old(runJob[i]) && runErr[i] == old(runErr[i]))
 //@   loop 1 "range c.before"
 //@     invariant #same c == c0 && ctxOK(c)
+//@     invariant #C14.attempted-so-far calls(runServiceCommand) == rangeindex + 1 && !hookFailed
 //@     invariant #log-prefix runN >= old(runN) && (forall i int :: i < old(runN) ==> runJob[i] == old(runJob[i]) && runErr[i] == old(runErr[i]))
 
 //@ func (*TaskRunner).Finish
@@ -372,6 +412,7 @@ package runner
 // registered runs only AFTER it has released the mutex (a run needs the read lock to un-register: waiting with
 // the lock held would deadlock); there is no channel left to close twice
 //@ func (*TaskRunner).Cancel
+//@   effect unlock-only-held
 //@   requires runnerOK(r)
 //@   modifies ctxCancelled, r.canceling
 //@   ensures ctxCancelled[r] && r.canceling && (forall x *TaskRunner :: old(ctxCancelled[x]) ==> ctxCancelled[x])
